@@ -111,7 +111,7 @@ CHECKS = {
 REASONS = {}
 
 m = {"version": 1,
-     "setup_cmd": "python3-vt -B -m compileall -q pyvc contracts checks harness >/dev/null; true",
+     "setup_cmd": "./lemmas/check_all.sh >/dev/null 2>&1; python3-vt -B -m compileall -q pyvc contracts checks harness >/dev/null; true",
      "hooks": {"guard": "ANYTREE_VERIF",
                "enable": "no source hooks: contracts are sidecars under /verif; nothing in /repo is guarded",
                "baseline_off_cmd": "cd /repo && /venv/bin/python -m pytest -ra -q -p no:cacheprovider --timeout=900 --continue-on-collection-errors",
